@@ -5,6 +5,7 @@ package c11
 import (
 	"bufio"
 	"context"
+	"errors"
 	"fmt"
 	"net"
 	"strconv"
@@ -200,6 +201,24 @@ func registerCheck(chk *mx.ScriptCheck) {
 	scriptChecks.Unlock()
 }
 
+// errNoPort: the machine has (temporarily) no free TCP port - an environment
+// problem, the case is inconclusive.
+var errNoPort = errors.New("no free TCP port on 127.0.0.1")
+
+// retryPorts runs f until it stops failing with "address already in use"
+// (ephemeral ports are shared with every other check running on the machine
+// and can be exhausted by sockets in TIME_WAIT), for at most about a minute.
+func retryPorts(f func() error) error {
+	var err error
+	for try := 0; try < 60; try++ {
+		if err = f(); err == nil || !strings.Contains(err.Error(), "address already in use") {
+			return err
+		}
+		time.Sleep(time.Duration(200+50*try) * time.Millisecond)
+	}
+	return fmt.Errorf("%w: %v", errNoPort, err)
+}
+
 func freePort() (int, error) {
 	l, err := net.Listen("tcp", "127.0.0.1:0")
 	if err != nil {
@@ -374,7 +393,8 @@ func newEpHarness(sc epScenario) (*epHarness, error) {
 
 	var lastErr error
 	for try := 0; try < 20; try++ {
-		port, err := freePort()
+		var port int
+		err := retryPorts(func() (e error) { port, e = freePort(); return })
 		if err != nil {
 			return nil, err
 		}
@@ -401,7 +421,7 @@ func newEpHarness(sc epScenario) (*epHarness, error) {
 		h.endp = endp
 		return h, nil
 	}
-	return nil, lastErr
+	return nil, fmt.Errorf("%w: %v", errNoPort, lastErr)
 }
 
 func (h *epHarness) holders() int {
@@ -725,14 +745,19 @@ func (h *epHarness) smtpProbe(c *rep.Case, r *rep.Reporter, scope string, surplu
 }
 
 func runEndpointCases(t *testing.T, r *rep.Reporter, env instrEnv) {
-	n := r.N(64, 2000)
-	nTimeout := r.N(8, 96) // the first cases are limit time-out scenarios (5 s each)
+	n := r.N(64, 4000)
+	nTimeout := r.N(8, 128) // the first cases are limit time-out scenarios (5 s each)
 	for i := 0; i < n; i++ {
 		idx := baseEndpoint + i
 		r.Run(idx, fmt.Sprintf("endpoint-%d", i), func(c *rep.Case) {
 			p := prng.New(r.Seed(), uint64(idx), "c11/endpoint")
 			sc := genEndpointScenario(p, i < nTimeout)
 			h, err := newEpHarness(sc)
+			if errors.Is(err, errNoPort) {
+				c.Inconclusive(err.Error())
+				c.Done("", false)
+				return
+			}
 			if err != nil {
 				t.Fatalf("case %d: %v", idx, err)
 			}
